@@ -64,6 +64,9 @@ var c39Classes = []string{
 	"ec256-d-zero", "ec384-d-zero", "ec521-d-zero",
 	"ec256-d-one", "ec384-d-one", "ec521-d-one",
 	"ec256-d-leading-zeros", "ec384-d-leading-zeros", "ec521-d-leading-zeros",
+	// ECDSA related points: stored point shares structure with d*G (one coordinate, neighbour multiple)
+	"ec-point-negated-all", "ec-point-negated-all", "ec-point-same-y-other-x", "ec-point-negated-outer-only", "ec-point-negated-inner-only",
+	"ec-point-d-plus-1", "ec-point-other-curve-equal-x", "rsa-n-bitflip-all",
 	// RSA
 	"rsa-p-foreign-crt-consistent", "rsa-d-plus-lcm", "rsa-e-one-d-one", "rsa-e-even-outer-too",
 	"rsa-n-not-pq", "rsa-n-not-pq-outer-orig", "rsa-d-wrong", "rsa-d-plus-lambda", "rsa-e-mismatch", "rsa-pq-swapped", "rsa-iqmp-garbage", "rsa-p-foreign",
@@ -107,6 +110,30 @@ func ecKind(c elliptic.Curve) string {
 
 // scalarRangeClasses are gated one by one.
 var scalarRangeClasses = []string{"d-plus-n-below-p", "d-eq-n", "d-n-plus-1", "d-p-minus-1", "d-zero", "d-one", "d-leading-zeros"}
+
+// relatedPointClasses are gated one by one.
+var relatedPointClasses = []string{"ec-point-negated-all", "ec-point-same-y-other-x", "ec-point-negated-outer-only", "ec-point-negated-inner-only", "ec-point-d-plus-1", "rsa-n-bitflip-all"}
+
+// sqrtModP for p = 3 mod 4 (true for P-256, P-384, P-521); nil if a is not a square.
+func sqrtModP(a, p *big.Int) *big.Int {
+	e := new(big.Int).Add(p, big.NewInt(1))
+	e.Rsh(e, 2)
+	s := new(big.Int).Exp(a, e, p)
+	if new(big.Int).Mod(new(big.Int).Mul(s, s), p).Cmp(new(big.Int).Mod(a, p)) != 0 {
+		return nil
+	}
+	return s
+}
+
+// curveRHS = x^3 - 3x + b mod p.
+func curveRHS(c elliptic.Curve, x *big.Int) *big.Int {
+	p := c.Params().P
+	r := new(big.Int).Mul(x, x)
+	r.Mul(r, x)
+	r.Sub(r, new(big.Int).Mul(big.NewInt(3), x))
+	r.Add(r, c.Params().B)
+	return r.Mod(r, p)
+}
 
 var anyKinds = []string{"ed25519", "ecdsa256", "ecdsa384", "ecdsa521", "rsa"}
 
@@ -349,6 +376,97 @@ func buildClass(cls string, r *rand.Rand, block int) *built {
 		ps.EC.D = D
 		ps.EC.DBody = body
 		return finish(ps, outer)
+
+	case "ec-point-negated-all", "ec-point-same-y-other-x", "ec-point-negated-outer-only", "ec-point-negated-inner-only", "ec-point-d-plus-1", "ec-point-other-curve-equal-x":
+		c := mon.Pick(r, curves)
+		P := c.Params().P
+		A := ecKey(r, c)
+		b.keyType = ecKind(c)
+		b.expect, b.vkey = expMustReject, "accepted-key-does-not-match-its-public:"+cls
+		cn := fm.CurveName(c)
+		neg := fm.ECPoint(c, A.X, new(big.Int).Sub(P, A.Y))
+		ps, outer := std(A)
+		switch cls {
+		case "ec-point-negated-all":
+			ps.EC.Pub, outer = neg, fm.BlobEC(cn, neg)
+			b.what = "every stored public point = (x, p-y) = -(d*G): shares the x coordinate with d*G"
+		case "ec-point-negated-outer-only":
+			outer = fm.BlobEC(cn, neg)
+			b.what = "inner point d*G, outer key -(d*G)"
+		case "ec-point-negated-inner-only":
+			ps.EC.Pub = neg
+			b.what = "inner point -(d*G), outer key d*G"
+		case "ec-point-d-plus-1":
+			B := ecFromD(c, new(big.Int).Add(A.D, big.NewInt(1)))
+			q := fm.ECPoint(c, B.X, B.Y)
+			ps.EC.Pub, outer = q, fm.BlobEC(cn, q)
+			b.what = "every stored public point = (d+1)*G"
+		case "ec-point-same-y-other-x":
+			// the other roots of x^3 - 3x + b = y^2 for the same y: x'^2 + x1 x' + x1^2 - 3 = 0
+			var q []byte
+			for try := 0; try < 60 && q == nil; try++ {
+				disc := new(big.Int).Mul(A.X, A.X)
+				disc.Mul(disc, big.NewInt(3))
+				disc.Sub(big.NewInt(12), disc)
+				disc.Mod(disc, P)
+				if sq := sqrtModP(disc, P); sq != nil {
+					x2 := new(big.Int).Sub(sq, A.X)
+					x2.Mul(x2, new(big.Int).ModInverse(big.NewInt(2), P))
+					x2.Mod(x2, P)
+					if x2.Cmp(A.X) != 0 && curveRHS(c, x2).Cmp(curveRHS(c, A.X)) == 0 {
+						q = fm.ECPoint(c, x2, A.Y)
+						break
+					}
+				}
+				A = ecKey(r, c)
+				ps, outer = std(A)
+			}
+			if q == nil {
+				b.expect, b.what = expFree, "not constructible for these keys: plain control"
+				return finish(ps, outer)
+			}
+			ps.EC.Pub, outer = q, fm.BlobEC(cn, q)
+			b.what = "every stored public point = (x', y): another point of the curve with the same y coordinate as d*G"
+		default: // other curve, equal X bytes (zero-extended), y solved on that curve
+			b.expect, b.vkey = expFree, ""
+			var c2 elliptic.Curve
+			for _, cc := range curves {
+				if cc.Params().BitSize > c.Params().BitSize {
+					c2 = cc
+					break
+				}
+			}
+			if c2 == nil {
+				c, c2 = curves[0], curves[1]
+				A = ecKey(r, c)
+				ps, outer = std(A)
+				b.keyType = ecKind(c)
+			}
+			for try := 0; try < 60; try++ {
+				if y2 := sqrtModP(curveRHS(c2, A.X), c2.Params().P); y2 != nil {
+					q := fm.ECPoint(c2, A.X, y2)
+					ps.KeyType = "ecdsa-sha2-" + fm.CurveName(c2)
+					ps.EC.Curve, ps.EC.Pub = fm.CurveName(c2), q
+					outer = fm.BlobEC(fm.CurveName(c2), q)
+					break
+				}
+				A = ecKey(r, c)
+				ps, outer = std(A)
+			}
+			b.what = "public point on a larger curve with the X bytes of d*G (zero-extended), scalar of the smaller curve"
+		}
+		return finish(ps, outer)
+	case "rsa-n-bitflip-all":
+		A, _ := rsaPair(r)
+		b.keyType = "rsa"
+		b.expect, b.vkey = expMustReject, "accepted-key-does-not-match-its-public:"+cls
+		ps, _ := std(A)
+		n2 := new(big.Int).Set(A.N)
+		bit := 1 + r.IntN(A.N.BitLen()-2) // keep it odd and of the same length
+		n2.SetBit(n2, bit, n2.Bit(bit)^1)
+		ps.RSA.N = n2
+		b.what = "one bit of n flipped in the private section and in the outer key"
+		return finish(ps, fm.BlobRSA(ps.RSA.E, n2))
 
 	// ---- RSA ----
 	case "rsa-p-foreign-crt-consistent":
